@@ -359,7 +359,10 @@ fn s_line(out: &mut impl Write, rng: &mut Rng, matcher: &mut Matcher) {
     // match_list over a few variations of the haystack (with duplicates and ties)
     let mut items: Vec<String> = Vec::new();
     let hs: String = hay.iter().collect();
-    for k in 0..rng.below(6) {
+    // every fourth list is long (sort implementations switch strategy with the length: a sort that is only stable for short
+    // slices must not pass), with many equal scores that are not already in descending order
+    let n_items = if rng.below(4) == 0 { 33 + rng.below(64) } else { rng.below(6) };
+    for k in 0..n_items {
         match k % 3 {
             0 => items.push(hs.clone()),
             1 => items.push(gen_hay(rng).iter().collect()),
